@@ -402,6 +402,9 @@ func IsInjected(err error) bool {
 type NodeIdStorage struct {
 	*RecStorage
 	Order map[string][]string
+	// Native delegates the lookup to the inner storage's own LoadByNodeId (the
+	// repository's store-once test back end, whose order is that of a Go map).
+	Native bool
 }
 
 func NewNodeIdStorage(inner nodeenrollment.Storage) *NodeIdStorage {
@@ -420,6 +423,11 @@ func (s *NodeIdStorage) LoadByNodeId(ctx context.Context, m nodeenrollment.Messa
 }
 
 func (s *NodeIdStorage) loadByNodeId(ctx context.Context, m nodeenrollment.MessageWithNodeId) error {
+	if s.Native {
+		if nl, ok := s.Inner.(nodeenrollment.NodeIdLoader); ok {
+			return nl.LoadByNodeId(ctx, m)
+		}
+	}
 	set, ok := m.(*types.NodeInformationSet)
 	if !ok {
 		return fmt.Errorf("unsupported message %T", m)
